@@ -643,6 +643,7 @@ static void op_dsqrt(void)
   ESL_SQFILE *sqfp = NULL; FILE *fp; char base[256], fa[300], path[300], errbuf[eslERRBUFSIZE];
   pthread_t th[8]; CARG ca[8]; void *r;
   char *cstr; size_t clen = 0; uint64_t h = 0xcbf29ce484222325ull; int nchunks = 0;
+  char hdr[200] = "-";
   static const char *ext[] = { "", ".dsqi", ".dsqm", ".dsqs" };
 
   n1 = split_hexlist(h_arg("names"), &names); n2 = split_hexlist(h_arg("descs"), &descs); n3 = split_hexlist(h_arg("dsq"), &dsqs);
@@ -691,6 +692,9 @@ static void op_dsqrt(void)
     tctx.in_open = 0;
     if (st != eslOK) { h_out("dsqopen-%s", h_status(st)); g_dd = NULL; g_ptrace = 0; if (dd) free(dd); goto CLEAN2; }
     if (g_dd != dd) { g_ptrace = 0; g_dd = dd; }   /* could not identify the object early: run without trace */
+    /* header statistics of the database as esl_dsqdata_Open() read them back */
+    snprintf(hdr, sizeof(hdr), "%" PRIu64 "/%" PRIu64 "/%" PRIu64 "/%" PRIu32 "/%" PRIu32 "/%" PRIu32 "/%d", dd->nseq, dd->nres, dd->max_seqlen,
+             dd->max_namelen, dd->max_acclen, dd->max_desclen, dd->pack5 ? 5 : 2);
   }
   for (i = 0; i < C; i++) { ca[i].seed = seed * 7777ull + 13ull * (i + 1); ca[i].tid = 100 + i; pthread_create(&th[i], NULL, rt_consumer, &ca[i]); }
   for (i = 0; i < C; i++) pthread_join(th[i], &r);
@@ -712,8 +716,8 @@ static void op_dsqrt(void)
     clen += sprintf(cstr + clen, "%s%" PRId64 ":%d:%d", i ? "," : "", rt_chu[i].i0, rt_chu[i].N, rt_chu[i].pn); nchunks++;
   }
   for (; i < rt_nchu_alloc; i++) if (rt_chu[i].set) rt_oob++;      /* a gap in the chunk numbering */
-  h_out("ok nseq=%d chunks=%s digest=%" PRIu64 " eofs=%d dup=%d miss=%d bad=%d oob=%d err=%d lockerr=%d trace=%s", n1 - miss, nchunks ? cstr : "-", h,
-        rt_eofs, rt_dup, miss, bad, rt_oob, rt_err, g_lockerr, (g_ptrace && g_nevents) ? g_trace : "-");
+  h_out("ok nseq=%d chunks=%s digest=%" PRIu64 " eofs=%d dup=%d miss=%d bad=%d oob=%d err=%d lockerr=%d hdr=%s trace=%s", n1 - miss, nchunks ? cstr : "-", h,
+        rt_eofs, rt_dup, miss, bad, rt_oob, rt_err, g_lockerr, hdr, (g_ptrace && g_nevents) ? g_trace : "-");
   g_ptrace = 0;
   free(cstr);
  CLEAN2:
